@@ -459,12 +459,12 @@ func seqs(symbols []int, lo, hi int) [][]int {
 func init() {
 	const parts = 16
 	run.Register(&run.Prop{
-		ID:         "C20",
-		Level:      "exploration",
-		Exhaustive: true,
-		Cases:      func(tier string) int { return parts },
-		ChunkSize:  1,
-		Rule:       "exhaustive small scope, split over 16 cases: NewPublishMock over ALL expectation lists of length 0-3 x ALL invocation sequences of length 0-4 over {2 messages x 2 topics, closed quit} (85 x 781 pairs); NewSubscribeMock and NewUnsubscribeMock over all expectation lists of length 0-2 of non-empty filter sets over {a,b,c} (in one order each) x all invocation sequences of length 0-2 whose calls are filter sequences of length 0-3 with repetitions, or a closed quit; NewPublishExchangeStub over ALL scripts of length 0-3 over {plain error, ErrClosed, finite block, indefinite block, nil} with and without errFix (constructor panics exactly for the documented misuse); NewReadSlicesStub/Mock, NewPublishStub, NewSubscribeStub, NewUnsubscribeStub on their contracts. The doubles run against a recording testing.TB; oracle = reference semantics: a failure is recorded iff message or topic differs (publish), the filter multiset differs (subscribe), or the number of calls differs (surplus call at once, missing calls at cleanup); never a panic on a wrong call; closed quit => ErrCanceled without consuming an expectation; returned slices are private; exchange delivers the scripted errors in order then closes unless it ends in ErrClosed or an indefinite block. Every pair is non-trivial; distinct by (double, expectation list length, sequence length, verdict).",
+		ID:          "C20",
+		Level:       "exploration",
+		Exhaustive:  true,
+		Cases:       func(tier string) int { return parts },
+		ChunkSize:   1,
+		Rule:        "exhaustive small scope, split over 16 cases: NewPublishMock over ALL expectation lists of length 0-3 x ALL invocation sequences of length 0-4 over {2 messages x 2 topics, closed quit} (85 x 781 pairs); NewSubscribeMock and NewUnsubscribeMock over all expectation lists of length 0-2 of non-empty filter sets over {a,b,c} (in one order each) x all invocation sequences of length 0-2 whose calls are filter sequences of length 0-3 with repetitions, or a closed quit; NewPublishExchangeStub over ALL scripts of length 0-3 over {plain error, ErrClosed, finite block, indefinite block, nil} with and without errFix (constructor panics exactly for the documented misuse); NewReadSlicesStub/Mock, NewPublishStub, NewSubscribeStub, NewUnsubscribeStub on their contracts. The doubles run against a recording testing.TB; oracle = reference semantics: a failure is recorded iff message or topic differs (publish), the filter multiset differs (subscribe), or the number of calls differs (surplus call at once, missing calls at cleanup); never a panic on a wrong call; closed quit => ErrCanceled without consuming an expectation; returned slices are private; exchange delivers the scripted errors in order then closes unless it ends in ErrClosed or an indefinite block. Every pair is non-trivial; distinct by (double, expectation list length, sequence length, verdict).",
 		Assumptions: []string{"expectation lists for the subscribe mocks hold each filter once (a repeated filter inside one expectation is outside the stated contract)", "'stays open' is observed for 20 ms; finite ExchangeBlock delays are 1 ms"},
 		Run: func(c *run.Ctx) {
 			part := c.Case
